@@ -21,8 +21,10 @@ CONSTANTS ChkAlign,     \* key/signature version alignment is checked
 
 Kinds == {"binary", "text", "certification", "subkey_binding", "primary_key_binding", "direct_key", "key_revocation"}
 Versions == {4, 6}
-(* what an attacker may change.  "content": the signed data / key / user id; "content_eol": LF <-> CRLF in a text document *)
-Perturbations == {"none", "content", "content_eol", "truncate", "extend", "version", "type", "pkalg", "hashalg",
+(* what an attacker may change.  "content": the signed data / key / user id; "content_eol": LF <-> CRLF in a text document;
+   "extend_blank_lookalike": white space other than space and tab (VT, FF, NEL, NBSP, U+2028, U+3000) appended to a line of a text
+   document - only trailing SPACE and TAB are outside the signed form of the cleartext framework, nothing is for other text signatures *)
+Perturbations == {"none", "content", "content_eol", "truncate", "extend", "extend_blank_lookalike", "version", "type", "pkalg", "hashalg",
                   "hashed_sub_value", "hashed_sub_type", "hashed_sub_critical", "hashed_area_len", "salt_value", "salt_len",
                   "left16", "sigvalue", "key_other", "key_same_material_other_version", "key_same_material_other_identity",
                   "unhashed_area",
@@ -32,14 +34,14 @@ Perturbations == {"none", "content", "content_eol", "truncate", "extend", "versi
                   "backsig_missing", "backsig_foreign"}
 
 Applicable(k, v, p) ==
-  /\ (p = "content_eol" => k = "text")
+  /\ (p \in {"content_eol", "extend_blank_lookalike"} => k = "text")
   /\ (p \in {"salt_value", "salt_len"} => v = 6)
   /\ (p \in {"truncate", "extend", "ops_type", "ops_hashalg", "ops_pkalg"} => k \in {"binary", "text"})
   /\ (p \in {"backsig_missing", "backsig_foreign"} => k = "subkey_binding")
 
 (* the digest as a record of what went into it *)
 Digest(k, v, p) ==
-  [ content |-> IF p \in {"content", "truncate", "extend"} THEN "changed"
+  [ content |-> IF p \in {"content", "truncate", "extend", "extend_blank_lookalike"} THEN "changed"
                 ELSE IF p = "content_eol" THEN (IF k = "text" THEN "same" ELSE "changed") ELSE "same",
     meta    |-> IF HashMeta /\ p \in {"version", "type", "pkalg", "hashalg", "hashed_sub_value", "hashed_sub_type",
                                       "hashed_sub_critical", "hashed_area_len"} THEN "changed" ELSE "same",
